@@ -26,13 +26,14 @@ import (
 )
 
 type cfg struct {
-	P, L, D  int64 // period, list latency, consumption delay (virtual ns)
-	N        int   // results to consume before a regular shutdown
-	CloseAt  int64 // >0: an independent closer shuts the lister down at this virtual time
-	Fuzz     int   // number of fuzz draws explored per nextPeriod call (1 or 3)
-	Timer123 bool
-	Mode     string
-	Bound    int
+	P, L, D     int64 // period, list latency, consumption delay (virtual ns)
+	N           int   // results to consume before a regular shutdown
+	CancelErrAt int   // >0: the k-th List returns an error wrapping context.Canceled although nothing is shutting down
+	CloseAt     int64 // >0: an independent closer shuts the lister down at this virtual time
+	Fuzz        int   // number of fuzz draws explored per nextPeriod call (1 or 3)
+	Timer123    bool
+	Mode        string
+	Bound       int
 }
 
 func (c cfg) name() string {
@@ -40,19 +41,23 @@ func (c cfg) name() string {
 	if c.Timer123 {
 		t = "go123"
 	}
+	if c.CancelErrAt > 0 {
+		t += fmt.Sprintf("/list#%d-fails-with-context.Canceled", c.CancelErrAt)
+	}
 	return fmt.Sprintf("c13/P%d/L%d/D%d/N%d/close%d/fuzz%d/%s/%s%d", c.P, c.L, c.D, c.N, c.CloseAt, c.Fuzz, t, c.Mode, c.Bound)
 }
 
 type inst struct {
-	c          cfg
-	inflight   int
-	maxFlight  int
-	starts     []int64 // virtual start time of every List call
-	consumed   []int64 // virtual time each result was taken
-	finished   bool
-	closedDone bool
-	takeFailed bool
-	errs       []string
+	c                       cfg
+	inflight                int
+	maxFlight               int
+	starts                  []int64 // virtual start time of every List call
+	consumed                []int64 // virtual time each result was taken
+	finished                bool
+	closedDone              bool
+	idleChecked, doneAtIdle bool
+	takeFailed              bool
+	errs                    []string
 }
 
 type client struct{ in *inst }
@@ -68,6 +73,10 @@ func (c *client) List(ctx context.Context, _ metav1.ListOptions) (runtime.Object
 	in.starts = append(in.starts, now)
 	vs.Note(uint64(in.inflight), uint64(len(in.starts)))
 	defer func() { in.inflight--; vs.Note(uint64(in.inflight)) }()
+	if in.c.CancelErrAt > 0 && len(in.starts) == in.c.CancelErrAt {
+		// a transport / proxy timeout surfacing as context.Canceled while the caller's context is alive
+		return nil, fmt.Errorf("list interrupted: %w", context.Canceled)
+	}
 	if in.c.L > 0 {
 		t := time.NewTimer(time.Duration(in.c.L))
 		select {
@@ -86,6 +95,15 @@ func (c *client) List(ctx context.Context, _ metav1.ListOptions) (runtime.Object
 	return &corev1.PodList{ListMeta: metav1.ListMeta{ResourceVersion: "1"}}, nil
 }
 
+// afterStop: "shuts down promptly" - the list client honours its context, so once stop is signalled the lister must
+// finish without waiting for anything that takes time: at the next quiescent instant (1 ns later on the virtual
+// clock, before any list latency or refresh timer can fire) Done() is closed.
+func (in *inst) afterStop(done <-chan struct{}) {
+	vs.SleepIdle(1)
+	in.idleChecked = true
+	in.doneAtIdle = hx.IsClosed(done)
+}
+
 func (in *inst) run() {
 	if in.c.Fuzz >= 3 {
 		vrand.Floats = []float64{0.5, 0, 0.999999}
@@ -98,6 +116,7 @@ func (in *inst) run() {
 		go func() {
 			time.Sleep(time.Duration(in.c.CloseAt))
 			close(stop)
+			in.afterStop(l.Done())
 		}()
 	}
 	for i := 0; i < in.c.N; i++ {
@@ -149,7 +168,14 @@ func (in *inst) check(r *vs.Result) []string {
 			}
 		}
 	}
-	if len(in.errs) > 0 && c.CloseAt == 0 {
+	if in.idleChecked && !in.doneAtIdle {
+		msgs = append(msgs, fmt.Sprintf("shutdown waits for time to pass | stop was signalled but at the next quiescent instant Done() was still open: the lister waits for a list in flight or a timer although the client honours its context (P=%d L=%d D=%d close=%d; list starts %v); blocked: %v", c.P, c.L, c.D, c.CloseAt, in.starts, blockedSites(r)))
+	}
+	if c.CancelErrAt > 0 {
+		if len(in.errs) != 1 {
+			msgs = append(msgs, fmt.Sprintf("injected list error not delivered | list #%d failed with an error wrapping context.Canceled; results with an error: %v", c.CancelErrAt, in.errs))
+		}
+	} else if len(in.errs) > 0 && c.CloseAt == 0 {
 		msgs = append(msgs, fmt.Sprintf("unexpected list error | %v", in.errs))
 	}
 	return msgs
@@ -250,6 +276,12 @@ func Property() runner.Property {
 		},
 		Scenarios: func(tier string) []runner.Sc {
 			var out []runner.Sc
+			// a list error that wraps context.Canceled while nothing is shutting down is a result like any other:
+			// it is delivered and relisting goes on
+			for _, k := range []int{1, 2} {
+				out = append(out, scenario(cfg{P: 10, L: 5, D: 0, N: 3, CancelErrAt: k, Fuzz: 1, Mode: "S2", Bound: 2}))
+			}
+
 			Ls, Ds := []int64{0, 5, 11, 20}, []int64{0, 5, 15}
 			if tier == "thorough" {
 				Ls = []int64{0, 5, 9, 11, 20, 50}
